@@ -732,7 +732,7 @@ def main():
     try:
         results = driver.run_shards(
             shard_main, payloads,
-            cap_s=600 if tier == "quick" else 7200)
+            cap_s=900 if tier == "quick" else 21600)
     except driver.HarnessError as ex:
         print("HARNESS-ERROR: %s" % ex)
         sys.exit(2)
@@ -747,7 +747,7 @@ def main():
         try:
             session_results = driver.run_shards(
                 session_shard, spayloads,
-                cap_s=600 if tier == "quick" else 7200)
+                cap_s=900 if tier == "quick" else 21600)
         except driver.HarnessError as ex:
             print("HARNESS-ERROR: %s" % ex)
             sys.exit(2)
